@@ -64,7 +64,7 @@ def correspond(ctx):
                      [{'n_programs': ctx.n(18, 500), 'props': ['C01'], 'mode': 'plain'}] * 14)
     # liveness clause: theorem counter-witnesses replayed on the real engine + real runs with pause/resume on
     # small acyclic definitions (partial joins with successors, several activations) followed by the model
-    par.run_parallel(ctx, 'harness.live_stream', 'run_chunk', [{'n_programs': ctx.n(14, 350)}] * 14)
+    par.run_parallel(ctx, 'harness.live_stream', 'run_chunk', [{'n_programs': ctx.n(12, 350)}] * 14)
 
 
 def search(ctx):
